@@ -34,6 +34,21 @@ func (c *ctx) importNames() {
 			if st.Pos() >= before {
 				break
 			}
+			if sw, ok := st.(*ast.SwitchStmt); ok {
+				// `switch name { case "_", ".": return }`
+				for _, cl := range sw.Body.List {
+					cc := cl.(*ast.CaseClause)
+					if !astx.Terminates(&ast.BlockStmt{List: cc.Body}) {
+						continue
+					}
+					for _, e := range cc.List {
+						if bl, ok := astx.Unparen(e).(*ast.BasicLit); ok && bl.Kind == token.STRING {
+							seen[bl.Value] = true
+						}
+					}
+				}
+				continue
+			}
 			is, ok := st.(*ast.IfStmt)
 			if !ok || !astx.Terminates(is.Body) {
 				continue
